@@ -132,3 +132,23 @@ def ca_for(df, k):
     """capability (DF17: any of 0..7) / control field (DF18: 5 as before, 0, 1 = ADS-B from non-transponder devices,
     6 = ADS-R: the codes whose ME field has the DF17 layout) rotating with k."""
     return k % 8 if df == 17 else (5, 0, 1, 6)[k % 4]
+
+
+def kw_call(f, *args):
+    """the same call with every argument passed by the name the function itself advertises (inspect.signature):
+    ('ok', value) / ('exc', type) / None when the signature cannot be read or has no named parameters to bind."""
+    import inspect
+    try:
+        ps = [p_ for p_ in inspect.signature(f).parameters.values()
+              if p_.kind in (p_.POSITIONAL_OR_KEYWORD, p_.KEYWORD_ONLY)]
+    except (TypeError, ValueError):
+        return None
+    if len(ps) < len(args):
+        return None
+    return call(f, **{p_.name: a for p_, a in zip(ps, args)})
+
+
+def np_str(msg):
+    """the frame as numpy.str_ - what iterating over a numpy array of hex strings yields (a str subclass)."""
+    import numpy as np
+    return np.str_(msg)
